@@ -52,6 +52,10 @@ def cases(tier, seed):
             out.append({"id": f"{i}|stationary", "fv": fv, "law": "stationary", "seed": seed, "tier": tier})
         if fv["h"] != "none":
             out.append({"id": f"{i}|degenerate", "fv": fv, "law": "degenerate", "seed": seed, "tier": tier})
+    # degenerate law for period-dependent transitions with _period not first and T = 4
+    for extra in ({"h": "dph", "T": 4}, {"h": "hp", "T": 4}):
+        fv = family.normalise(dict(family.BASE, **extra))
+        out.append({"id": f"{e1.fv_id(fv)}|degenerate", "fv": fv, "law": "degenerate", "seed": seed, "tier": tier})
     # states without any feasible choice (value -inf, supported in one-period models): a*(-inf)+b = -inf
     for extra in ({}, {"e": 1}, {"filt": "none"}):
         fv = family.normalise(dict(family.BASE, cons="tight", T=1, **extra))
@@ -203,6 +207,33 @@ def run_case(case):
                         break
                 if viols:
                     break
+            if len(stoch) >= 2 and not viols:
+                # PARTIALLY degenerate: only the first stochastic state has one-hot rows, supplied as an INTEGER
+                # array; the others keep generic fractional rows.  Twin: first state deterministic, others stochastic.
+                base = e1.gen_params(P, shocks, seed, "default", 0.9)
+                first = stoch[0]
+                a = per_var[0][min(1, len(per_var[0]) - 1)]
+                base["shocks"] = dict(base["shocks"])
+                base["shocks"][first] = jnp.asarray(np.asarray(a).astype(np.int64))
+                model = family.exec_model(family.assemble(fv["T"], src, states, choices, funcs))
+                _, _, why2 = e1.reference(model, {**base, "shocks": {**base["shocks"], first: jnp.asarray(a)}})
+                if not why2:
+                    V, _, _ = e1.lcm_solve(model, base)
+                    mdef = re.search(rf"@lcm\.mark\.stochastic\ndef next_{first}\(([^)]*)\):\n    pass", src)
+                    deps = mdef.group(1)
+                    tab = np.asarray(a).argmax(-1)
+                    src_d = src.replace(mdef.group(0), f"def next_{first}({deps}):\n    return TAB_{first}[{deps}]")
+                    model_d = family.exec_model(family.assemble(fv["T"], f"\nTAB_{first} = jnp.asarray({tab.tolist()!r})\n" + src_d, states, choices, funcs))
+                    pd = {k: v for k, v in base.items() if k != "shocks"}
+                    pd["shocks"] = {k: v for k, v in base["shocks"].items() if k != first}
+                    Vd, _, _ = e1.lcm_solve(model_d, pd)
+                    traces += 2
+                    for t in range(len(V)):
+                        ok = _close(V[t], Vd[t])
+                        cnt += int(np.size(V[t]))
+                        if not np.all(ok):
+                            viols.append(violation("degenerate-law", "compare", "VALUE", f"only {first} degenerate (integer one-hot array {tab.tolist()}), other stochastic states generic: period {t} differs from the model with deterministic next_{first}", period=t))
+                            break
     except Exception as e:
         import traceback
 
